@@ -112,11 +112,11 @@ def compare(got, want, exact, path):
             gi += 1
         if exact:
             if chunk != ''.join(texts):
-                raise Mismatch('X2 text of <%s> differs: got %r want %r' % (path, chunk, ''.join(texts)))
+                raise Mismatch('X2 element text differs in <%s>: got %r want %r' % (path, chunk, ''.join(texts)))
         else:
             pat = r'\A' + FMT + FMT.join(re.escape(t) for t in texts) + FMT + r'\Z'
             if re.match(pat, chunk) is None:
-                raise Mismatch('X2 text inside <%s> differs: got %r want lines %r' % (path, chunk, texts))
+                raise Mismatch('X2 text lines differ in <%s>: got %r want lines %r' % (path, chunk, texts))
         del texts[:]
 
     for w in want:
@@ -125,24 +125,24 @@ def compare(got, want, exact, path):
             continue
         flush_texts(w)
         if gi >= len(got):
-            raise Mismatch('X2 <%s>: %s %r missing from the parsed document' % (path, w[0], w[1]))
+            raise Mismatch('X2 item missing from the parsed document in <%s>: %s %r' % (path, w[0], w[1]))
         g = got[gi]
         gi += 1
         if g[0] != w[0]:
-            raise Mismatch('X2 <%s>: expected %s %r, parsed %s %r' % (path, w[0], w[1], g[0], g[1]))
+            raise Mismatch('X2 item kind differs in <%s>: expected %s %r, parsed %s %r' % (path, w[0], w[1], g[0], g[1]))
         if w[0] == 'comment':
             if g[1] != w[1]:
-                raise Mismatch('X2 <%s>: comment differs: got %r want %r' % (path, g[1], w[1]))
+                raise Mismatch('X2 comment differs in <%s>: got %r want %r' % (path, g[1], w[1]))
         else:
             if g[1] != w[1]:
-                raise Mismatch('X2 <%s>: element name differs: got %r want %r' % (path, g[1], w[1]))
+                raise Mismatch('X2 element name differs in <%s>: got %r want %r' % (path, g[1], w[1]))
             gattrs = dict(g[2])
             if len(gattrs) != len(g[2]) or gattrs != w[2]:
-                raise Mismatch('X2 <%s/%s>: attributes differ: got %r want %r' % (path, w[1], g[2], w[2]))
+                raise Mismatch('X2 attributes differ in <%s/%s>: got %r want %r' % (path, w[1], g[2], w[2]))
             compare(g[3], w[3], w[4], path + '/' + w[1])
     flush_texts(None)
     if gi != len(got):
-        raise Mismatch('X2 <%s>: unexpected extra content in the parsed document: %r' % (path, got[gi:][:2]))
+        raise Mismatch('X2 unexpected extra content in <%s>: %r' % (path, got[gi:][:2]))
 
 
 # ---------------------------------------------------------------------------------------
@@ -427,6 +427,6 @@ def worker(args):
 def signature_of(v):
     import re
     first = v['message'].split('\n')[0]
-    first = re.sub(r'<[^>]*>', '', first)            # element paths vary from run to run
-    first = re.sub(r'[:(].*$', '', first).strip()
+    first = re.sub(r'[:(].*$', '', first)
+    first = re.sub(r' in <.*$', '', first).strip()   # element paths vary from run to run
     return re.sub(r'\s+', '-', first)[:80]
